@@ -186,9 +186,11 @@ func vGenEdgeRune(t *rapid.T, label string) rune {
 
 // vGenName builds a name the tokenizer preserves: first and last rune are
 // letters/digits of some script; inner runes may be blanks and punctuation.
+var vLongNameOneIn = 10 // set by generators that want more names longer than the report columns
+
 func vGenName(t *rapid.T, wild bool, label string) string {
 	n := rapid.IntRange(1, 6).Draw(t, label+".len")
-	if rapid.IntRange(0, 9).Draw(t, label+".long") == 0 {
+	if rapid.IntRange(0, vLongNameOneIn-1).Draw(t, label+".long") == 0 {
 		n += rapid.IntRange(5, 30).Draw(t, label+".extra")
 	}
 	var sb strings.Builder
